@@ -53,7 +53,7 @@ func collectRaces(res *Result) {
 }
 
 func suiteC05(cfg Config, res *Result) {
-	res.Rule = "grammar-generated programs over every modelled tag (with includes, lazy includes, macros, cycle, ifchanged, whitespace options) compiled once and executed from k in {2,4,8} goroutines at once under GOMAXPROCS in {1,2,8}, with equal and different contexts, while other goroutines compile/fetch from the same set (FromString, FromFile, FromCache); oracle: every output equals the sequential output for its context, and the race detector (harness built with -race) reports nothing; non-trivial = all; distinct by program"
+	res.Rule = "grammar-generated programs over every modelled tag (with includes, lazy includes, macros, cycle, ifchanged, whitespace options) compiled once and executed from k in {2,4,8} goroutines at once under GOMAXPROCS in {1,2,8}, with equal and different contexts, while other goroutines compile/fetch from the same set (FromString, FromFile, FromCache); each goroutine through one of Execute / ExecuteBytes / ExecuteWriter / ExecuteWriterUnbuffered; oracle: every output equals the sequential output for its context, the bytes ExecuteBytes returned are still the same after further executions, and the race detector (harness built with -race) reports nothing; non-trivial = all; distinct by program"
 	n := 250
 	if cfg.Thorough() {
 		n = 4000
@@ -101,6 +101,7 @@ func suiteC05(cfg Config, res *Result) {
 		res.hist(fmt.Sprintf("k=%d", k))
 		var wg sync.WaitGroup
 		outs := make([]string, k)
+		held := make([][]byte, k) // results of ExecuteBytes, kept (not copied) across later executions
 		goA, goB := ctxA.Go(), ctxB.Go()
 		for j := 0; j < k; j++ {
 			wg.Add(1)
@@ -110,7 +111,7 @@ func suiteC05(cfg Config, res *Result) {
 				if j%2 == 1 {
 					c = goB
 				}
-				outs[j] = execOnce(tpl, c).String()
+				outs[j] = execVariant(tpl, c, (j/2)%4, &held[j]).String()
 			}(j)
 		}
 		// meanwhile: compile and fetch from the same set
@@ -135,8 +136,56 @@ func suiteC05(cfg Config, res *Result) {
 				break
 			}
 		}
+		// a result handed out earlier must not change when the template is executed again
+		execOnce(tpl, goB)
+		var again []byte
+		execVariant(tpl, goA, 1, &again)
+		for j := 0; j < k; j++ {
+			if held[j] == nil {
+				continue
+			}
+			want := seqA
+			if j%2 == 1 {
+				want = seqB
+			}
+			if got := (execRes{out: string(held[j])}).String(); got != want {
+				res.add(Finding{Kind: "oracle", Proj: "race", Sig: "c05-returned-bytes-changed-later", Case: pc.String(), Impl: got, Model: "what ExecuteBytes returned: " + want})
+				break
+			}
+		}
 	}
 	collectRaces(res)
+}
+
+// execVariant runs one of the four Execute variants; for ExecuteBytes the returned slice itself is kept in *keep
+func execVariant(tpl *pongo2.Template, ctx pongo2.Context, variant int, keep *[]byte) (r execRes) {
+	defer func() {
+		if p := recover(); p != nil {
+			r = execRes{pan: fmt.Sprint(p)}
+		}
+	}()
+	switch variant {
+	case 1:
+		b, err := tpl.ExecuteBytes(ctx)
+		if err != nil {
+			return execRes{err: err.Error()}
+		}
+		*keep = b
+		return execRes{out: string(b)}
+	case 2:
+		var buf bytes.Buffer
+		if err := tpl.ExecuteWriter(ctx, &buf); err != nil {
+			return execRes{err: err.Error()}
+		}
+		return execRes{out: buf.String()}
+	case 3:
+		var buf bytes.Buffer
+		if err := tpl.ExecuteWriterUnbuffered(ctx, &buf); err != nil {
+			return execRes{err: err.Error()}
+		}
+		return execRes{out: buf.String()}
+	}
+	return execOnce(tpl, ctx)
 }
 
 func suiteC20Conc(cfg Config, res *Result) {
